@@ -119,6 +119,11 @@ const optionalEmbedSource = "src"
 
 // readsThroughOptionalEmbed returns true for lists, maps and messages which belong to a nullable embedded message
 func (f *FieldCopyToGenerator) readsThroughOptionalEmbed() bool {
+	if f.Kind == ObjectKind && !f.IsNullable && f.Message != nil && f.Message.IsEmpty {
+		// Nothing is read from a message with no fields which is held by value
+		return false
+	}
+
 	switch f.Kind {
 	case ObjectKind, PrimitiveListKind, PrimitiveMapKind, ObjectListKind, ObjectMapKind:
 		return f.ParentIsOptionalEmbed && f.OneOfName == ""
